@@ -46,8 +46,62 @@ pub fn log_len() -> usize {
     LOG.lock().unwrap_or_else(|e| e.into_inner()).len()
 }
 
+/// "Who calls" includes a thread that is unwinding from a panic of its own: with `set_unwind_every(n)` every n-th
+/// guarded call of each thread is made from a destructor that runs during such an unwinding (`thread::panicking()`
+/// is true inside the call). Nothing in the library's contract depends on it.
+static UNWIND_EVERY: std::sync::atomic::AtomicU32 = std::sync::atomic::AtomicU32::new(0);
+static UNWOUND_CALLS: std::sync::atomic::AtomicU64 = std::sync::atomic::AtomicU64::new(0);
+thread_local! {
+    static UNWIND_TICK: std::cell::Cell<u32> = const { std::cell::Cell::new(0) };
+}
+
+pub fn set_unwind_every(n: u32) {
+    UNWIND_EVERY.store(n, std::sync::atomic::Ordering::SeqCst);
+}
+
+/// Number of guarded calls made from an unwinding destructor so far (for the evidence).
+pub fn unwound_calls() -> u64 {
+    UNWOUND_CALLS.load(std::sync::atomic::Ordering::SeqCst)
+}
+
+struct Quiet;
+
+fn guard_while_unwinding<R>(f: impl FnOnce() -> R) -> Result<R, String> {
+    struct G<'a, F: FnOnce() -> R, R>(Option<F>, &'a mut Option<Result<R, String>>);
+    impl<'a, F: FnOnce() -> R, R> Drop for G<'a, F, R> {
+        fn drop(&mut self) {
+            if let Some(f) = self.0.take() {
+                debug_assert!(std::thread::panicking());
+                *self.1 = Some(guard_plain(f));
+            }
+        }
+    }
+    let mut slot: Option<Result<R, String>> = None;
+    let _ = panic::catch_unwind(AssertUnwindSafe(|| {
+        let _g = G(Some(f), &mut slot);
+        // (no hook, no message: the harness's own panic, raised only to have something to unwind from)
+        panic::resume_unwind(Box::new(Quiet));
+    }));
+    UNWOUND_CALLS.fetch_add(1, std::sync::atomic::Ordering::Relaxed);
+    slot.unwrap_or_else(|| Err("the guarded call did not run".into()))
+}
+
 /// Run `f`; `Err(description)` if it unwound. The description includes the location recorded by the hook.
 pub fn guard<R>(f: impl FnOnce() -> R) -> Result<R, String> {
+    let every = UNWIND_EVERY.load(std::sync::atomic::Ordering::Relaxed);
+    if every > 0 && !std::thread::panicking() {
+        let t = UNWIND_TICK.with(|c| {
+            c.set(c.get().wrapping_add(1));
+            c.get()
+        });
+        if t % every == 0 {
+            return guard_while_unwinding(f);
+        }
+    }
+    guard_plain(f)
+}
+
+fn guard_plain<R>(f: impl FnOnce() -> R) -> Result<R, String> {
     let before = log_len();
     match panic::catch_unwind(AssertUnwindSafe(f)) {
         Ok(r) => Ok(r),
